@@ -5,6 +5,7 @@ import Driver.OpsFnGen3
 import Driver.OpsFnGen5
 import Driver.OpsFnGen6
 import TakVerif.Generated.FuncsZw
+import TakVerif.Generated.FuncsSort
 namespace Driver
 open Tak Codec
 
@@ -51,6 +52,36 @@ def runZw (basis : Array W) (ev : Pos → Int) (noNull noRed mc : Bool) (tblNil 
           (fun q => (q.gameOver.1, 0#8)) (fun q => q.hashOf) (fun q => q.height) (genChild basis) (fun q => q.stacks) (fun q => q.white)
           (fun q => Int.ofNat q.whiteStones.toNat) (fun _ ms => ms) (d.toNat + 2) p ply d pv α cut s)
 
+/-! `fn.sortmoves` (task 3): `Gen.moveGeneratorSortMoves` with `sort.Sort` as an oracle.  The regenerated definition is run twice:
+once with an "oracle" that hands the values it is given back (encoded as moves), which yields the REGENERATED values `vs[:len(ms)]`;
+then with the oracle token of the op line - after re-checking that the token is a permutation of `ms` along which those values
+are non-increasing. -/
+
+def nonIncreasing : List Int → Bool
+  | a :: b :: rest => decide (a ≥ b) && nonIncreasing (b :: rest)
+  | _ => true
+
+def fmtInts (l : List Int) : String := if l.isEmpty then "-" else ",".intercalate (l.map toString)
+
+def runSort (hist : List (Gen.Move × Int)) (ms : Array Gen.Move) (mode : Nat) (fill : Int) (res : Array Gen.Move) : String :=
+  let n := ms.size
+  let (slice, sliceNil, alloc) : Array Int × Bool × Array Int :=
+    match mode with
+    | 0 => (#[], true, Array.replicate 500 0)
+    | 1 => (#[], true, Array.replicate 500 fill)
+    | 2 => (Array.replicate (n + 3) fill, false, Array.replicate 500 0)
+    | _ => (Array.replicate (n - 1) fill, false, Array.replicate 500 0)
+  match Gen.moveGeneratorSortMoves hist alloc slice sliceNil ms (fun _ vs => vs.map fun v => { X := v, Y := 0, Type_ := 0#8, Slides := 0#32 }) with
+  | none => "panic"
+  | some enc =>
+    let vals := enc.toList.map (·.X)
+    let pairs := ms.toList.zip vals
+    let valOf (m : Gen.Move) : Int := (Gen.mapGet pairs m).getD 0
+    if vals.length != n || !(res.toList.isPerm ms.toList) || !(nonIncreasing (res.toList.map valOf)) then "oracle-mismatch" else
+    match Gen.moveGeneratorSortMoves hist alloc slice sliceNil ms (fun _ _ => res) with
+    | none => "panic"
+    | some out => s!"{fmtMvs0 false out} {fmtInts (out.toList.map valOf)}"
+
 end FnGen7
 open FnGen5 FnGen6 FnGen7
 
@@ -69,6 +100,10 @@ def handleFnGen7 : Handler := fun st op args =>
         | some ((ms, v), (hist, resp, stats, fm, fpv, _, table)) =>
           s!"{v} {fmtMvs0 false ms} {FnGen5.fmtStats stats} {fmtTable (tbl < 0) table} {fmtMap fmtMv false resp} {fmtMap toString false hist} {fmtMvs0 false fm} {fmtMvs0 false (fpv.getD ply.toNat #[])}")
     | _, _, _, _, _, _, _ => some (st, "bad-op")
+  | "fn.sortmoves", [hist, ms, mode, fill, res] =>
+    match parseMap String.toInt? hist, parseMvs0 ms, mode.toNat?, fill.toInt?, parseMvs0 res with
+    | some (_, hist), some (_, ms), some mode, some fill, some (_, res) => some (st, runSort hist ms mode fill res)
+    | _, _, _, _, _ => some (st, "bad-op")
   | _, _ => none
 
 end Driver
